@@ -86,7 +86,12 @@ class Call:
         return (self.status, tuple(tuple(h) for h in self.headers or ()), self.body)
 
 
-def call(app, env, max_chunks=100000):
+SERVER_MARK = 'X-Served-By'
+
+
+def call(app, env, max_chunks=100000, server_edits_headers=False):
+    """server_edits_headers: behave like wsgiref - the server adds its own entries to the very list object the
+    application passed to start_response (PEP 3333: the server may change that list in any way it likes)."""
     c = Call()
     c.sr_calls = []
     c.status = None
@@ -100,12 +105,16 @@ def call(app, env, max_chunks=100000):
     c.iter_error = None
     c.has_close = False
     c.sr_before_first_chunk = True
+    live = []
 
     def start_response(status, headers, exc_info=None):
         c.sr_calls.append((status, list(headers) if isinstance(headers, list) else headers, exc_info is not None))
         c.status = status
-        c.headers = headers
+        c.headers = list(headers) if (server_edits_headers and type(headers) is list) else headers
         c.exc_info_given = exc_info is not None
+        if server_edits_headers and type(headers) is list:
+            headers.append((SERVER_MARK, 'vf'))
+            live.append(headers)
 
         def write(data):
             c.write_called = True
@@ -144,6 +153,9 @@ def call(app, env, max_chunks=100000):
             except BaseException as e:   # noqa
                 c.iter_error = c.iter_error or e
     c.errors = env['wsgi.errors'].text() if hasattr(env.get('wsgi.errors'), 'text') else ''
+    for hl in live:
+        if not any(isinstance(h, tuple) and len(h) == 2 and isinstance(h[0], str) and h[0].lower() == 'content-length' for h in hl):
+            hl.append(('Content-Length', str(len(c.body))))       # wsgiref does this for single-chunk answers
     return c
 
 
@@ -168,6 +180,8 @@ def pep3333_problems(c, method='GET'):
     if type(c.headers) is not list:
         p.append(f'headers is {type(c.headers).__name__}, not list')
     else:
+        if any(type(h) is tuple and len(h) == 2 and h[0] == SERVER_MARK for h in c.headers):
+            p.append('the header list passed to start_response contains an entry that the server added to the list of an earlier response')
         for h in c.headers:
             if type(h) is not tuple or len(h) != 2:
                 p.append(f'header entry {h!r} is not a 2-tuple')
